@@ -36,7 +36,8 @@ RULE = ('Five generated families. db: one of 34 database chemicals with complete
         'reference state and on both sides of Tb/Tm are compared with closed-form path integrals. mixH / mixS: IdealMixture over '
         '1-5 database or synthetic chemicals with independent reference phases/locks (mixS: 80% of cases with all database '
         'chemicals on one side of the melting point, outside finding C07-F1), phase in s,l,g,L,S, amounts 0 or 10**u with u in [-9,4] (optionally one present component forced to 1e-9..1e-6), '
-        'scale factors 1e-9..1e6; H, Cn, S against '
+        'scale factors 1e-9..1e6, include_excess_energies False or True (then the pure values are H_i+H_excess_i, S_i+S_excess_i of the '
+        'chemical objects; P up to 1e7 Pa); H, Cn, S against '
         'mole-weighted pure values (relative tolerance, also for one component alone), homogeneity, multi-phase xH/xS/xCn and the ideal mixing term. stream: 2-4 streams of one '
         'phase at equal T,P mixed with Stream.mix_from (Stream or MultiStream), S_out >= sum S_in and the exact mixing-entropy '
         'increase. Non-trivial: evaluated phase differs from the reference phase, or >= 2 components present. Distinct by '
@@ -46,13 +47,14 @@ ASSUMPTIONS = ['R is thermosteam.constants.R (asserted within 1e-6 of a CODATA v
                'synthetic chemicals are given thermodynamically consistent data: Sfus = Hfus/Tm, Cn > 0, Hvap(Tb) > 0',
                'the absolute entropy S0 is the value the Chemical object itself reports',
                'stream mixing is checked for inlets of one common phase at equal T and P on one property package',
-               'include_excess_energies is left at its default (False)']
+               'with include_excess_energies=True the pure values of the mixture identities are H_i + H_excess_i and S_i + S_excess_i '
+               'as returned by the Chemical objects; streams use the default property package (False)']
 REQUIRED_CELLS = {'quick': ['db:ref', 'db:dT', 'db:deriv', 'db:dP', 'db:jump_vap', 'db:jump_fus', 'db:locked',
                             'db:ref=s', 'db:ref=l', 'db:ref=g', 'syn:ref=s', 'syn:ref=l', 'syn:ref=g', 'syn:locked',
                             'syn:Tb<Tm', 'mix:n>=2', 'mix:n=1', 'mix:multi', 'stream:distinct', 'stream:same',
                             'stream:kind=M', 'syn:mode=at_state', 'syn:mode=ref_setter', 'syn:mode=S0_setter',
                             'syn:mode=Tb_setter', 'db:lock.how=at', 'db:lock.how=lock', 'mix:tiny_all', 'mix:tiny_some',
-                            'mix:large'],
+                            'mix:large', 'mix:excess=0', 'mix:excess=1', 'mix:excess>0.1%'],
                   'thorough': []}
 
 T_REF = 298.15
@@ -107,6 +109,15 @@ def H_of(c, ph, T, P):
 
 def S_of(c, ph, T, P):
     return c.S(T, P) if c.locked_state else c.S(ph, T, P)
+
+
+def Hx_of(c, ph, T, P):
+    """The chemical's own excess (departure) enthalpy, added by mixtures built with include_excess_energies=True."""
+    return c.H_excess(T, P) if c.locked_state else c.H_excess(ph, T, P)
+
+
+def Sx_of(c, ph, T, P):
+    return c.S_excess(T, P) if c.locked_state else c.S_excess(ph, T, P)
 
 
 def Cn_model(c, ph):
@@ -613,13 +624,19 @@ def draw_components(ch, ctx, site, side=None):
         tags.append(['syn', spec['lock'] or chems[-1].phase_ref])
     order = ch.permutation('order', len(chems)) if len(chems) > 1 else [0]
     chems = [chems[i] for i in order]; tags = [tags[i] for i in order]
-    key = tuple(map(tuple, tags))
+    # documented configuration of IdealMixture.from_chemicals: H and S also add the chemicals' own excess energies
+    excess = ch.bool('excess')
+    ctx.cell(f'mix:excess={int(excess)}')
+    key = (tuple(map(tuple, tags)), excess)
     if use_syn == 0 and key in _mix_cache:
         mix = _mix_cache[key]
     else:
-        mix = ctx.call(site + '.build', tmo.IdealMixture.from_chemicals, chems, region=f'k={len(chems)}')
+        mix = ctx.call(site + '.build', tmo.IdealMixture.from_chemicals, chems, include_excess_energies=excess,
+                       region=f'k={len(chems)},ex={int(excess)}')
         if use_syn == 0: _mix_cache[key] = mix
-    return chems, tags, mix
+    if mix.include_excess_energies is not excess:
+        ctx.fail(f'{site}.build|k={len(chems)},ex={int(excess)}|flag-ignored', 'include_excess_energies not stored')
+    return chems, tags, mix, excess
 
 
 def draw_mol(ch, label, k):
@@ -662,7 +679,7 @@ def pure_values(ctx, site, fn, chems, ph, T, P):
 
 
 def prop_mixH(ch, ctx):
-    chems, tags, mix = draw_components(ch, ctx, 'mix')
+    chems, tags, mix, excess = draw_components(ch, ctx, 'mix')
     k = len(chems)
     ph = ch.choice('phase', MIX_PHASES)
     T = ch.float('T', 200.0, 600.0)
@@ -670,10 +687,15 @@ def prop_mixH(ch, ctx):
     mol = draw_mol(ch, 'mol', k)
     ncomp = int((mol > 0).sum())
     ctx.cell('mix:n>=2' if ncomp >= 2 else 'mix:n=1')
-    rg = f'ncomp={"1" if ncomp == 1 else ">=2"},ph={ph}'
+    rg = f'ncomp={"1" if ncomp == 1 else ">=2"},ph={ph},ex={int(excess)}'
     if ncomp >= 2:
         ctx.nontriv(['mixH', tags, ph, (mol > 0).tolist()])
     Hi = pure_values(ctx, 'mix.pure.H', H_of, chems, ph, T, P)
+    if excess:
+        Hxi = pure_values(ctx, 'mix.pure.H_excess', Hx_of, chems, ph, T, P)
+        ctx.metric_max('mix:Hx/H', float(np.abs(Hxi).max() / (np.abs(Hi).max() + 1e-300)))
+        if np.abs(Hxi).max() > 1e-3 * np.abs(Hi).max(): ctx.cell('mix:excess>0.1%')
+        Hi = Hi + Hxi
     Ci = pure_values(ctx, 'mix.pure.Cn', lambda c, ph, T, P: Cn_of(c, ph, T), chems, ph, T, P)
     as_list = ch.bool('mol.as_list')
     arg = mol.tolist() if as_list else mol
@@ -709,6 +731,7 @@ def prop_mixH(ch, ctx):
         ph2 = ch.choice('phase2', [p for p in MIX_PHASES if p != ph])
         mol2 = draw_mol(ch, 'mol2', k)
         H2 = pure_values(ctx, 'mix.pure.H', H_of, chems, ph2, T, P)
+        if excess: H2 = H2 + pure_values(ctx, 'mix.pure.H_excess', Hx_of, chems, ph2, T, P)
         C2 = pure_values(ctx, 'mix.pure.Cn', lambda c, ph, T, P: Cn_of(c, ph, T), chems, ph2, T, P)
         xH = ctx.call('mix.xH', mix.xH, [(ph, mol), (ph2, mol2)], T, P, region=rg)
         xC = ctx.call('mix.xCn', mix.xCn, [(ph, mol), (ph2, mol2)], T, P, region=rg)
@@ -730,7 +753,7 @@ def prop_mixS(ch, ctx):
     # reference phase; most cases are steered away from that region (the stateless db family covers it)
     side = ch.choice('side', ('fluid', 'fluid', 'fluid', 'solid', None))
     phases_ok = {'fluid': ('l', 'g', 'L'), 'solid': ('s', 'S'), None: MIX_PHASES}[side]
-    chems, tags, mix = draw_components(ch, ctx, 'mix', side)
+    chems, tags, mix, excess = draw_components(ch, ctx, 'mix', side)
     k = len(chems)
     ctx.cell('mixS:side=' + str(side))
     ph = ch.choice('phase', phases_ok)
@@ -743,10 +766,12 @@ def prop_mixS(ch, ctx):
         if mol[keep] == 0: mol[keep] = 1.0
     ncomp = int((mol > 0).sum())
     ctx.cell('mix:n>=2' if ncomp >= 2 else 'mix:n=1')
-    rg = f'ncomp={"1" if ncomp == 1 else ">=2"},ph={ph}'
+    rg0 = f'ncomp={"1" if ncomp == 1 else ">=2"},ph={ph}'      # region of the mixing-term clause (finding C07-F2)
+    rg = rg0 + f',ex={int(excess)}'
     if ncomp >= 2:
         ctx.nontriv(['mixS', tags, ph, (mol > 0).tolist()])
     Si = pure_values(ctx, 'mix.pure.S', S_of, chems, ph, T, P)
+    if excess: Si = Si + pure_values(ctx, 'mix.pure.S_excess', Sx_of, chems, ph, T, P)
     Sm = ctx.call('mix.S', mix.S, ph, mol, T, P, region=rg)
     sc = float(np.abs(mol * Si).sum()) + R * float(mol.sum())
     # one present component on its own (whatever its magnitude): n_i * S_i, no mixing term
@@ -778,7 +803,7 @@ def prop_mixS(ch, ctx):
         n = mol[mol > 0]
         plus_nlnx = float((n * np.log(n / n.sum())).sum())
         kind = 'term=+sum(n*ln(x))' if close(Sm - pure, plus_nlnx, 1e-11, sc) else 'mismatch'
-        ctx.fail(f'mix.S.term|{rg}|{kind}',
+        ctx.fail(f'mix.S.term|{rg0}|{kind}',
                  f'S_mix - sum n_i S_i = {Sm - pure!r}, -R sum n_i ln x_i = {want - pure!r} (mol={mol.tolist()}, {tags})')
 
 
